@@ -17,7 +17,7 @@ from ..gen import rng_for
 
 LEVEL = "exploration"
 CASE_TIMEOUT = {"quick": 90, "thorough": 180}
-TIME_LIMIT = 50.0
+TIME_LIMIT = 0.5
 
 
 def gen_cases(tier, seed):
